@@ -69,7 +69,6 @@ pub fn to_trace(raw: &[Raw], dir: &Path) -> Result<Vec<Value>, String> {
     // pass 1: transactions, their segment and end offset
     let mut next_tx = 1u64;
     let mut key2tx: HashMap<(u64, u64), u64> = HashMap::new();
-    let mut ends: BTreeMap<u64, Vec<u64>> = BTreeMap::new(); // seg -> end offsets of completed txs
     #[derive(Clone)]
     enum L {
         Write { tx: u64, seg: u64, ok: Option<bool> },
@@ -125,7 +124,6 @@ pub fn to_trace(raw: &[Raw], dir: &Path) -> Result<Vec<Value>, String> {
                     }
                 };
                 if ok {
-                    ends.entry(g("seg")).or_default().push(g("off"));
                     key2tx.insert((g("partition"), g("first_seq")), tx);
                 } else {
                     key2tx.retain(|_, v| *v != tx);
@@ -150,9 +148,23 @@ pub fn to_trace(raw: &[Raw], dir: &Path) -> Result<Vec<Value>, String> {
             other => return Err(format!("unexpected hook event {other}")),
         }
     }
-    let units = |seg: u64, len: u64| -> u64 { ends.get(&seg).map(|v| v.iter().filter(|e| **e <= len).count() as u64).unwrap_or(0) };
+    // pass 2: units as of each line -- transactions of the segment whose write line has been
+    // passed (and that complete) and that end at or before the offset
+    let mut end_of: HashMap<u64, (u64, u64)> = HashMap::new(); // tx -> (seg, end offset)
+    for l in &lines {
+        if let L::Reply { tx, ok: true, seg, off } = l {
+            end_of.insert(*tx, (*seg, *off));
+        }
+    }
+    let mut seen: BTreeMap<u64, Vec<u64>> = BTreeMap::new();
     let mut out = vec![];
     for l in lines {
+        if let L::Write { tx, ok: Some(true), .. } = &l {
+            if let Some((seg, end)) = end_of.get(tx) {
+                seen.entry(*seg).or_default().push(*end);
+            }
+        }
+        let units = |seg: u64, len: u64| -> u64 { seen.get(&seg).map(|v| v.iter().filter(|e| **e <= len).count() as u64).unwrap_or(0) };
         out.push(match l {
             L::Write { tx, seg, ok: Some(true) } => json!({"e": "write", "tx": tx, "seg": seg}),
             L::Write { seg, .. } => json!({"e": "partial", "seg": seg}),
